@@ -1,6 +1,8 @@
 """Checks for the statime (PTP / CSPTP) crates, driven through the stand-alone harness package harness/ext
-(public API only): C41 (spec/PtpWire.tla), C45 C44 (spec/Csptp.tla), C42 C43 (spec/Estimator.tla)."""
-import os, json, zlib, random
+(public API only): C41 (spec/PtpWire.tla), C45 C44 (spec/Csptp.tla), C42 C43 (spec/Estimator.tla), and - C42 C43 -
+through harness/statime_algo/estimator.rs compiled into statime-algo's own test target (crate-private EstimatorState,
+spec/EstState.tla)."""
+import os, json, zlib, random, time
 import vf, sm
 
 CRATE = "verif_ext"
@@ -199,11 +201,23 @@ class TourSM(sm.SM):
     def harness_cfg(self, cfgname, init_state):
         return {}
 
+    def replay(self, wd, prop, rnd, seed, walks):
+        """Runs the walks (lists of edge records) on the implementation; one result per walk:
+        {id, steps_run, fail: first fatal failure or None, fails: [all failures]}."""
+        wf = os.path.join(wd, "walks_%s_%d.ndjson" % (prop, rnd))
+        rf = os.path.join(wd, "results_%s_%d.ndjson" % (prop, rnd))
+        vf.write_ndjson(wf, [{"id": n, "walk": [{"act": r["act"], "post": r["post"], "out": r["out"]} for r in w]} for n, w in enumerate(walks)])
+        vf.run_harness(self.crate, self.test, {"mode": "replay", "cfg": {}, "input": wf, "output": rf, "seed": seed}, which=self.which)
+        return vf.read_ndjson(rf)
+
     def model_and_replay(self, out, prop, tier, seed, cfgname, max_len=40):
         """As sm.SM.model_and_replay, plus: a transition on which the implementation fails ends its walk (a panic kills
         run()), so the transitions behind it are re-toured on the graph without the failing transitions."""
         wd = vf.workdir("%s_%s" % (self.module, cfgname))
+        t0 = time.time()
         g, mc, inits = vf.collect_graph(self.mc_module, "Gen_%s_%s.cfg" % (self.module, cfgname), workers=4, timeout=1500)
+        vf.log("%s/%s: TLC %d states, %d transitions in %.1fs" % (self.module, cfgname, mc.distinct, mc.generated, time.time() - t0))
+        t0 = time.time()
         if mc.violated:
             raise vf.ToolError("model %s/%s violates %s at design level:\n%s" % (self.module, cfgname, mc.violated, mc.error_trace[:3000]))
         out.add("states", mc.distinct)
@@ -230,12 +244,7 @@ class TourSM(sm.SM):
                     idx.append(i)
             walks = h.tours(inits[0], max_len=max_len, rng=random.Random(seed + rnd), edge_filter=None)
             walks = [[idx[e] for e in w] for w in walks if any(idx[e] in todo for e in w)]
-            wf = os.path.join(wd, "walks_%s_%d.ndjson" % (prop, rnd))
-            rf = os.path.join(wd, "results_%s_%d.ndjson" % (prop, rnd))
-            vf.write_ndjson(wf, [{"id": n, "walk": [{"act": g.edges[e][2]["act"], "post": g.edges[e][2]["post"], "out": g.edges[e][2]["out"]}
-                                                      for e in w]} for n, w in enumerate(walks)])
-            vf.run_harness(self.crate, self.test, {"mode": "replay", "cfg": {}, "input": wf, "output": rf, "seed": seed}, which=self.which)
-            results = vf.read_ndjson(rf)
+            results = self.replay(wd, prop, rnd, seed, [[g.edges[e][2] for e in w] for w in walks])
             if len(results) != len(walks):
                 raise vf.ToolError("harness returned %d results for %d walks" % (len(results), len(walks)))
             for r in results:
@@ -257,6 +266,7 @@ class TourSM(sm.SM):
             if rnd == 0 and walks:
                 w = walks[0][:5]
                 out.sample({"cfg": cfgname, "walk_prefix": [g.edges[e][2]["act"] for e in w], "expected_out_of_last": g.edges[w[-1]][2]["out"]})
+        vf.log("%s/%s: %d walks, %d steps replayed in %.1fs" % (self.module, cfgname, nwalks, steps, time.time() - t0))
         out.add("replayed_steps", steps)
         out.add("replayed_walks", nwalks)
         out.add("model_transitions_constrained_by_property", len(wanted))
@@ -316,12 +326,79 @@ class Estimator(TourSM):
         detail = {"how": how, "cfg": cfgname, "history": acts, "expected": {"post": rec["post"], "out": rec["out"]},
                   "observed": fail.get("observed"), "panic": fail.get("panic"), "differing": sorted(fields)}
         if mine:
-            out.violation("Estimator:%s[%s]:%s" % (rec["act"]["t"], rec["out"]["res"], ",".join(mine)), detail)
+            out.violation("%s:%s[%s]:%s" % (self.module, rec["act"]["t"], rec["out"]["res"], ",".join(mine)), detail)
         elif others and not (fields - set(sum((list(cones[p]) for p in others), []))):
             out.add("failures_in_the_cone_of_other_properties_only", 1)      # e.g. F-14 (C43) seen while checking C42
         else:
             out.divergences.append(detail)
-            out.notes.append("divergence outside %s's cone (Estimator %s, fields %s)" % (prop, rec["act"]["t"], sorted(fields)))
+            out.notes.append("divergence outside %s's cone (%s %s, fields %s)" % (prop, self.module, rec["act"]["t"], sorted(fields)))
+
+
+class EstState(Estimator):
+    """spec/EstState.tla on the real (crate-private) EstimatorState: harness/statime_algo/estimator.rs, compiled into
+    statime-algo's own test target.  statime-algo has no serde_json: walks and results are line-oriented text."""
+    module = "EstState"
+    mc_module = "MC_EstState"
+    which = "algo"
+    crate = "statime_algo"
+    test = "estimator::verif_hook::verif_estimator_state"
+    perms = 0          # identifier permutations per walk (0 = all, on both storages; n > 0: ascending, descending, drawn ones, storages alternating)
+
+    @staticmethod
+    def _csv(xs):
+        return ",".join(str(x) for x in sorted(xs)) or "-"
+
+    @staticmethod
+    def _links(ls):
+        return ",".join("%d-%d" % (l["a"], l["b"]) for l in sorted(ls, key=lambda l: (l["a"], l["b"]))) or "-"
+
+    def _act(self, a):
+        t = a["t"]
+        if "x" in a:
+            return "%s %d" % (t, a["x"])
+        if t == "Measure":
+            return "Measure %d %d %s %d" % (a["l"]["a"], a["l"]["b"], a["d"], 1 if a["dl"] else 0)
+        if "l" in a:
+            return "%s %d %d" % (t, a["l"]["a"], a["l"]["b"])
+        return t
+
+    def replay(self, wd, prop, rnd, seed, walks):
+        wf = os.path.join(wd, "walks_%s_%d.txt" % (prop, rnd))
+        rf = os.path.join(wd, "results_%s_%d.txt" % (prop, rnd))
+        slots = None
+        with open(wf, "w") as f:
+            for n, w in enumerate(walks):
+                f.write("W %d %d\n" % (n, _case_seed("w%d.%d" % (rnd, n), seed)))
+                for r in w:
+                    o = r["out"]
+                    slots = len(r["post"]["kind"])
+                    f.write(" ; ".join([self._act(r["act"]), o["res"], self._csv(o["sameC"]), self._links(o["sameL"]), self._csv(o["int"]),
+                                        self._csv(o["ext"]), self._links(o["links"])]) + "\n")
+                f.write("E\n")
+        vf.run_harness(self.crate, self.test, {"mode": "replay", "input": wf, "output": rf, "seed": seed, "slots": slots, "perms": self.perms},
+                       which=self.which)
+        results, byid = [], {}
+        for line in open(rf):
+            line = line.rstrip("\n")
+            if line.startswith("R "):
+                _, i, steps, nvar = line.split()
+                byid[int(i)] = {"id": int(i), "steps_run": int(steps), "variants": int(nvar), "fail": None, "fails": []}
+                results.append(byid[int(i)])
+            elif line.startswith("F "):
+                head, obs = line.split(" | ", 1)
+                _, i, step, variant, fields, fatal = head.split()
+                f = {"step": int(step), "fields": fields.split(","), "observed": {"variant": variant, "text": obs},
+                     "panic": obs[obs.index("panic: "):] if "panic: " in obs else None}
+                if fatal == "fatal":
+                    byid[int(i)]["fail"] = f
+                byid[int(i)]["fails"].append(f)
+            elif line.startswith("S "):
+                _, k, v = line.split()
+                self.stats[k] = self.stats.get(k, 0) + int(v)
+        return results
+
+    def __init__(self):
+        self.stats = {}
 
 
 def steer_cases(out, prop, tier, seed):
@@ -354,11 +431,15 @@ def steer_cases(out, prop, tier, seed):
 def run_estimator(out, prop, tier, seed):
     if prop == "C43":
         steer_cases(out, prop, tier, seed)
+    # the estimator itself (crate-private EstimatorState, caller-chosen identifiers, both storages)
+    es = EstState()
+    es.perms = 0       # every assignment of real ClockIds to the model's identifiers, on both storages
+    es.model_and_replay(out, prop, tier, seed, tier, max_len=40)
+    out.add("estimator_state_steps_replayed_over_all_identifier_permutations_and_storages", es.stats.get("steps_replayed", 0))
+    # the controller (public API)
+    # (quick: three identifiers; a clock is created behind a link row once a tracked link has been driven to active, the
+    # older link is then removed: index shifts.  The former four-identifier "wide" quick run is subsumed by EstState.)
     e = Estimator()
-    if prop == "C42" and tier == "quick":
-        # four identifiers, three steered clocks, two links: a clock created behind a link row with estimates seeded
-        # through a second link, then the older link removed (index shifts)
-        e.model_and_replay(out, prop, tier, seed, "wide", max_len=40)
     e.model_and_replay(out, prop, tier, seed, tier, max_len=40)
     out.add("traces_validated_against_impl", 0)
     sp = os.path.join(vf.workdir("Estimator_%s" % tier), "results_%s_0.ndjson.stats" % prop)
@@ -369,6 +450,13 @@ def run_estimator(out, prop, tier, seed):
     out.add("steer_relations_skipped_numerically_degenerate", st["steer_relations_skipped_degenerate"])
     out.add("steer_relations_nontrivial_system_clock", st["steer_relations_nontrivial_system_clock"])
     out.add("steer_relations_nontrivial_other_clocks", st["steer_relations_nontrivial_other_clocks"])
+    out.add("link_activations_attempted", st["activations_attempted"])
+    out.add("link_activations_achieved", st["activations_achieved"])
+    out.add("link_activations_skipped_numerically_degenerate", st["activations_skipped_degenerate"])
+    out.add("clocks_added_behind_an_active_tracked_link", st["clocks_added_behind_an_active_tracked_link"])
+    if prop == "C43" and (st["activations_achieved"] == 0 or st["clocks_added_behind_an_active_tracked_link"] == 0):
+        raise vf.ToolError("C43 vacuous: no clock was added behind an active tracked link (%d of %d activations achieved)"
+                           % (st["activations_achieved"], st["activations_attempted"]))
     if prop == "C43" and st["steer_relations_evaluated"] == 0:
         raise vf.ToolError("C43 vacuous: no steering relation could be evaluated")
     if prop == "C43" and st["set_frequency_calls"] + st["step_clock_calls"] == 0:
@@ -379,7 +467,9 @@ def run_estimator(out, prop, tier, seed):
 def run(prop, tier, seed):
     out = vf.Outcome(prop, tier, seed, "model_checking")
     out.assumptions += ["code observed as compiled for tests (debug assertions, overflow checks on)",
-                        "statime crates driven through their public API only (harness/ext)"]
+                        "statime crates driven through their public API only (harness/ext)" if prop not in ("C42", "C43") else
+                        "controller driven through the public API only (harness/ext); EstimatorState driven directly from a cfg-guarded "
+                        "test-only child module of statime-algo/src/estimator.rs"]
     if prop == "C41":
         out.coverage["rule"] = ("every message / datagram class of the bounded PtpWire grammar (TLC-enumerated, round-trip laws checked on the "
                                 "specification's codec) is concretised on the real statime_wire::Message and compared with the specification; "
@@ -403,11 +493,17 @@ def run(prop, tier, seed):
         CsptpClient().model_and_replay(out, prop, tier, seed, tier, max_len=40)
         out.add("traces_validated_against_impl", 0)
     elif prop in ("C42", "C43"):
-        out.coverage["rule"] = ("every transition of the bounded Estimator bookkeeping model constrained by the property is covered by a "
-                                "transition tour replayed on the real KalmanController/KalmanLink with recording mock clocks; estimates of "
-                                "all live clocks (clock_offset, clock_frequency: value and uncertainty) are snapshotted bitwise around every "
-                                "operation; numeric relations of C43 are evaluated by the harness with the property's tolerance")
-        out.assumptions += ["estimates are opaque tokens in the specification (DESIGN 5.4); link delays are not observable through the public API",
+        out.coverage["rule"] = ("every transition constrained by the property of (a) the bounded EstState model of the estimator itself and (b) "
+                                "the bounded Estimator model of the controller is covered by a transition tour; (a) is replayed on the real "
+                                "EstimatorState over both storages with model identifiers mapped to real ClockIds through every "
+                                "permutation, (b) on the real KalmanController/"
+                                "KalmanLink with recording mock clocks; estimates of all live clocks (clock_offset, clock_frequency; (a) also "
+                                "link_delay: value and uncertainty) are snapshotted bitwise around every operation; numeric relations of C43 "
+                                "are evaluated by the harness with the property's tolerance")
+        out.assumptions += ["estimates are opaque tokens in the specification (DESIGN 5.4); link delays are not observable through the public API "
+                            "(they are compared at the EstimatorState level only)",
+                            "link activation at the controller level is driven by the harness with temporary reference objects (external clock, "
+                            "untracked links) and is attempted only in the numerically sane regime",
                             "LinkFilterConfig has no public constructor: the harness obtains a zeroed value by type inference and sets its public fields"]
         run_estimator(out, prop, tier, seed)
     else:
@@ -426,27 +522,40 @@ MANIFEST = {
                      "enumeration, parse->serialise prefix, no panic; plus seeded byte-level mutation for parse totality.",
                 note="bounded grammar; canonical field values only; byte-level totality is exploration (seeded mutations), not a proof; "
                      "error kinds (Invalid vs BufferTooShort) and the acceptance of non-serialised byte strings are outside the cone"),
-    "C42": dict(level="model_checking", technique="TLA+ bookkeeping state machine with opaque estimate tokens (spec/Estimator.tla) model-checked "
-                "with TLC; every explored transition replayed on the real KalmanController/KalmanLink (transition tour), estimates "
-                "snapshotted bitwise around every operation",
+    "C42": dict(level="model_checking", technique="two TLA+ bookkeeping state machines with opaque estimate tokens model-checked with TLC: "
+                "spec/EstState.tla (the estimator itself: caller-chosen identifiers, several external clocks, duplicate and repeated "
+                "adds) and spec/Estimator.tla (the controller); every explored transition replayed (transition tours) on the real "
+                "EstimatorState (harness compiled into statime-algo's test target, both storages, identifier permutations) resp. the "
+                "real KalmanController/KalmanLink, estimates snapshotted bitwise around every operation",
                 design_ref="5.4, 6.11, 7 (C42)", engine="tlc+replay",
-                text="<= 3 steered clocks + external clock, <= 2 links (tracked/untracked), all add/remove operations incl. every failing "
-                     "variant (unknown, system, in-use, equal, both-external identifiers), measurements (seeding distinct estimates; the "
-                     "model tracks which clocks are seeded) and a backwards time step: other clocks' clock_offset / clock_frequency (value "
-                     "and uncertainty) bit-identical, failing operations change nothing.",
-                note="estimates observed through the controller's public queries only (link delays are not exposed); removal of an "
-                     "in-use external clock and duplicate links are not generated (outcome unspecified); error kinds outside the cone"),
-    "C43": dict(level="model_checking", technique="TLA+ bookkeeping state machine (spec/Estimator.tla) model-checked with TLC; transition "
-                "tour replayed on the real KalmanController with recording mock clocks; numeric relations evaluated by the harness with "
-                "the property's tolerance (1e-9 relative + 1 ns)",
+                text="EstimatorState: 3 (thorough 4) caller-chosen clock identifiers, each unknown / internal / external (any number of "
+                     "external clocks, re-adding after removal), <= 2 links, add/remove of clocks, external clocks and links incl. every "
+                     "unknown and duplicate variant (internal/external/link already present, wrong kind, unknown link), measurements with and "
+                     "without link delay, time progression, backwards time, absorbed steps; every walk replayed under every assignment "
+                     "of real ClockIds to the identifiers (all permutations) on StdKalmanStorage and NoAllocKalmanStorage; "
+                     "result class, is_internal/is_external/is_known of every identifier and clock_offset / clock_frequency / link_delay "
+                     "(value and uncertainty, bitwise) of all other clocks and links compared after every step.  Controller: <= 3 steered "
+                     "clocks + external clocks, <= 2 links (tracked/untracked), tracked links driven to active, all add/remove operations "
+                     "incl. failing variants, measurements and a backwards time step.",
+                note="removal of a clock that a link still uses, links/measurements between two external clocks and duplicate controller "
+                     "links are not generated (outcome unspecified); a link operation is not required to preserve its own end points' "
+                     "estimates; error kinds and the reported membership after successful operations are outside the cone (divergences)"),
+    "C43": dict(level="model_checking", technique="TLA+ bookkeeping state machines (spec/Estimator.tla for the controller, spec/EstState.tla for "
+                "the estimator, spec/SteerCases.tla for the steering decision) model-checked with TLC; transition tours replayed on the "
+                "real KalmanController with recording mock clocks and on the real EstimatorState; numeric relations evaluated by the "
+                "harness with the property's tolerance (1e-9 relative + 1 ns)",
                 design_ref="5.4, 6.11, 7 (C43), 9 (F-14)", engine="tlc+replay",
-                text="frequency query right after add_clock reports 0 +- max_frequency (not the offset 0 +- 1e18); every set_frequency on "
-                     "a mock clock within its max frequency (all measurement and steering steps); on pure steering steps (cold link: the "
-                     "measurement leaves the estimates alone) each clock's offset / frequency estimate moves by the applied step / "
-                     "frequency change (+ frequency x elapsed time).",
-                note="the move-by-step relation is evaluated only in the numerically sane regime (finite, |offset| < 1e6 s); while F-14 is "
-                     "open frequencies are unobservable, so pure steering steps are run without elapsed time and the relation is mostly "
-                     "trivial for non-system clocks (detection of a wrong step sign needs F-14 fixed)"),
+                text="controller: frequency query right after add_clock reports 0 +- max_frequency (not the offset 0 +- 1e18), also for a "
+                     "clock added AFTER a tracked link has been driven to active (its delay row precedes the clock; real activity "
+                     "reported by KalmanLink::active, vacuity-guarded); every set_frequency on a mock clock within its max frequency (all "
+                     "measurement, activation and steering steps); on pure steering steps (one measurement over a fresh temporary tracked "
+                     "link: only steer_clocks runs) each clock's offset / frequency estimate moves by the applied step / frequency change "
+                     "(+ frequency x elapsed time).  Estimator: a clock added with given offset and frequency in any layout of clock and "
+                     "link rows reports exactly those through clock_offset / clock_frequency; an absorbed step / frequency change moves "
+                     "that clock's offset / frequency estimate by it.  Steering decision cases: clamp to the clock's limit.",
+                note="the controller-level move-by-step relation is evaluated only in the numerically sane regime (finite, |offset| < 1e6 "
+                     "s); link activation needs harness-made reference measurements (the controller steps clocks of unknown offset, which "
+                     "discards round trips)"),
     "C44": dict(level="model_checking", technique="TLA+ state machine (spec/Csptp.tla client part) model-checked with TLC; every explored "
                 "transition replayed on the real CsptpSource::run (transition tour, scripted socket, paused clock)",
                 design_ref="6.11, 7 (C44), 9 (F-15)", engine="tlc+replay",
